@@ -422,6 +422,14 @@ def parseAMFObject (tbl : TxnTable) (p : Bytes) : Res Kind × TxnTable :=
     | .NewPublishPacket => (.ok .publish, tbl)
     | .NewCallPacket => (.ok .call, tbl)
 
+/-- The tail of `DecodeMessage` for an AMF message: `parseAMFObject` chose the constructor (or failed),
+then `pkt.UnmarshalBinary(p)`. -/
+def decodeWith (r : Res Kind × TxnTable) (p : Bytes) : Res Packet × TxnTable :=
+  match r with
+  | (.ok k, tbl') => (unmarshal k p, tbl')
+  | (.err e, tbl') => (.err e, tbl')
+  | (.panic, tbl') => (.panic, tbl')
+
 /-- `DecodeMessage` with the table state made explicit. -/
 def dispatchSt (tbl : TxnTable) (m : Msg) : Res Packet × TxnTable :=
   if m.payload.length = 0 then (.err .generic, tbl) else
@@ -435,11 +443,7 @@ def dispatchSt (tbl : TxnTable) (m : Msg) : Res Packet × TxnTable :=
     | .NewSetPeerBandwidth => (unmarshal .setPeerBw p, tbl)
     | .NewUserControl => (unmarshal .userControl p, tbl)
     | .rejected => (.err .generic, tbl)
-    | .parseAMFObject =>
-      match parseAMFObject tbl p with
-      | (.ok k, tbl') => (unmarshal k p, tbl')
-      | (.err e, tbl') => (.err e, tbl')
-      | (.panic, tbl') => (.panic, tbl')
+    | .parseAMFObject => decodeWith (parseAMFObject tbl p) p
 
 /-- `DecodeMessage` as a result: the packet and the table afterwards. -/
 def dispatch (tbl : TxnTable) (m : Msg) : Res (Packet × TxnTable) :=
